@@ -820,11 +820,11 @@ func (c *updater) buildBackendProtocol(d *backData) {
 	}
 	if crt := d.mapper.Get(ingtypes.BackSecureCrtSecret); crt.Value != "" {
 		var crtFile convtypes.CrtFile
-		namespace, name, err := crt.NamespacedName()
+		defaultNamespace, err := crt.defaultNamespace()
 		if err == nil {
 			crtFile, err = c.cache.GetTLSSecretPath(
-				namespace,
-				name,
+				defaultNamespace,
+				crt.Value,
 				[]convtypes.TrackingRef{{Context: convtypes.ResourceHABackend, UniqueName: d.backend.ID}},
 			)
 		}
@@ -858,11 +858,11 @@ func (c *updater) buildBackendProtocol(d *backData) {
 	}
 	if ca := d.mapper.Get(ingtypes.BackSecureVerifyCASecret); ca.Value != "" {
 		var caFile, crlFile convtypes.File
-		namespace, name, err := ca.NamespacedName()
+		defaultNamespace, err := ca.defaultNamespace()
 		if err == nil {
 			caFile, crlFile, err = c.cache.GetCASecretPath(
-				namespace,
-				name,
+				defaultNamespace,
+				ca.Value,
 				[]convtypes.TrackingRef{{Context: convtypes.ResourceHABackend, UniqueName: d.backend.ID}},
 			)
 		}
